@@ -94,6 +94,9 @@ fn main() {
         ccfgs.push(CfCfg::new(2, 2, 2, fps3.clone(), alt.clone(), None, if thorough { 8 } else { 3 }, false));
     }
     ccfgs.push(CfCfg::new(2, 2, 64, vec![1, 2, 1 << 63, u64::MAX], vec![0, 1, 1, 0], Some(2), 0, false));
+    for alt in [vec![1u64, 2], vec![3, 0]] {
+        ccfgs.push(CfCfg::new(2, 4, 2, vec![1, 3], alt, Some(1), 0, false));
+    }
     if thorough {
         for alt in cuckoo::all_alt_maps(3, 2) {
             ccfgs.push(CfCfg::new(3, 2, 2, fps3.clone(), alt.clone(), Some(2), 0, false));
@@ -109,7 +112,7 @@ fn main() {
         // union sweep on the class-multiset model (budgeted configurations only)
         let mut ps = cuckoo::PairStats::default();
         let mut pv = vec![];
-        if cfg.budget.is_some() && cfg.budget.unwrap() <= 2 && cfg.l == 2 && cfg.bucketsize == 2 {
+        if cfg.budget.is_some() && cfg.budget.unwrap() <= 2 && cfg.l == 2 && cfg.bucketsize == 2 && cfg.n_buckets == 2 {
             let cm = CfModel::new(cfg.clone(), Mode::Classes, false).unwrap();
             let cex = cuckoo::explore(&cm, true, 400_000, 1);
             let rights: Vec<cuckoo::St> = cex.states.iter().filter(|s| s.f.len() <= if thorough { 4 } else { 2 }).cloned().collect();
